@@ -100,13 +100,14 @@ def run(scn):
     sim.add_agent("sys", mem)
     ncmd = len(ops)
     ratio = max(1.0, ck["usr"]["period"] / ck["sys"]["period"])
-    stall = sum(b for a, b in (m.get("cmd_ready") or [])) + sum(b for a, b in (scn["master"].get("rready") or [])) + 1
+    stall = sum(b for a, b in (m.get("cmd_ready") or [])) + int(ratio * sum(a + b for a, b in (scn["master"].get("rready") or []))) + 1
     cap = int((600 + sum(o.get("delay", 0) for o in ops) * ratio + ncmd * (8 * ratio + stall + max(m.get("extra") or [0]) + m.get("rl1", 3) + 12)))
     quiet = 0
     need_quiet = int(40 * ratio + 60 + max([b for a, b in (m.get("cmd_ready") or [])] or [0]) + max(m.get("extra") or [0]))
     cyc = sim.cycles
     idle_since = None
     wout = [0, 0]     # current / max number of writes accepted on the user side whose data strobe has not happened yet
+    viol.extra = lambda: {"max_writes_outstanding": wout[1], "wdata_depth": d.get("wdata_depth", 16)}
     while cyc["sys"] < cap:
         sim.step()
         o = stats["writes"] - mem.nwdone
@@ -149,9 +150,6 @@ def run(scn):
             if mem.mem[A] != ref.read(A, nb):
                 viol.add("final_image", "memory word 0x%x holds 0x%x, reference says 0x%x" % (A, mem.mem[A], ref.read(A, nb)))
                 break
-    for v in viol.v:
-        v["max_writes_outstanding"] = wout[1]
-        v["wdata_depth"] = d.get("wdata_depth", 16)
     stats["runs_exceeding_wdata_depth"] = 1 if wout[1] > d.get("wdata_depth", 16) else 0
     if meta:
         stats["meta_near"] = meta["near"]
@@ -164,8 +162,18 @@ def run(scn):
 
 
 def classify(scn, viol):
-    """Known finding cdc-write-overrun: more writes in flight behind the crossing than wdata_depth."""
-    if viol.get("oracle") in ("wdata_not_valid_at_strobe", "wdata_sequence", "wdata_count", "final_image", "hang") \
+    """Known findings.
+    cdc-upconv-write-lead: up-converted + clock-crossed port (get_port(data_width < native, clock_domain=...)): the
+    up-converter presents a write command 1-2 user cycles before its data, the crossing forwards both independently,
+    and with a user clock that is not clearly faster than sys the crossbar strobes the data before it has crossed.
+    cdc-write-overrun: more writes in flight behind the crossing than wdata_depth."""
+    if scn.get("variant") == "core":
+        pc = scn["core"]["ports"][0]
+        from ..coregen import BURST
+        if pc.get("cd", "sys") != "sys" and (viol.get("blind_strobes") or [0])[0] > 0 and viol.get("upconverted"):
+            return "cdc-upconv-write-lead"
+        return None
+    if viol.get("oracle") in ("wdata_not_valid_at_strobe", "wdata_sequence", "wdata_count", "final_image", "hang", "read_data") \
             and viol.get("max_writes_outstanding", 0) > viol.get("wdata_depth", 10 ** 9):
         return "cdc-write-overrun"
     return None
